@@ -538,6 +538,14 @@ struct Harness {
   std::string hangKey = "hang";
 
   void monitorLoop() {
+#if VERIF_TSAN
+    // No hang verdicts in ThreadSanitizer builds. The runtime's own report path can hold threads for a long time (every
+    // thread of a polling loop that touches a benignly racy word goes through stack restoration under global locks), and
+    // its background thread wakes every 100 ms; "every thread blocked or spinning without progress" is then either never
+    // true or true without a hang in the code under test - both were observed. A real hang in this build is left to the
+    // driver's stall watchdog (inconclusive); the same workloads run in the plain and ASan builds with the monitor on.
+    return;
+#endif
     int myTid = (int)syscall(SYS_gettid);
     struct Snap {
       uint64_t spins = 0, progress = 0;
@@ -567,13 +575,6 @@ struct Harness {
         int tid = atoi(e->d_name);
         if (tid <= 0 || tid == myTid)
           continue;
-#if VERIF_TSAN
-        // ThreadSanitizer's own background thread wakes up every 100 ms for ever (its context-switch count never stands
-        // still), so with it in the picture no deadlock would ever be declared in this build. Threads that never ran a
-        // Galois hook and are not the main thread are not part of the execution under test: leave them out.
-        if (tid != (int)getpid() && !tidToIdx.count(tid))
-          continue;
-#endif
         Snap s;
         if (!readTask(tid, s.ts))
           continue;
